@@ -5,11 +5,15 @@ Executing a plan is a pure function of the plan and of the code under /repo: the
 run PRNG is only used while *generating* the plan; at execution time every random
 choice derives from the step's own sub-seed ``rs``.
 """
+import faulthandler
 import hashlib
 from fnmatch import fnmatchcase
 import json
+import os
+import pickle
 import random
 import traceback
+from types import SimpleNamespace
 from collections import Counter
 
 FORMAT = 1
@@ -258,3 +262,56 @@ class time_limit:
         signal.setitimer(signal.ITIMER_REAL, 0)
         signal.signal(signal.SIGALRM, self._old)
         return False
+
+
+# ---------------------------------------------------------------- process isolation
+class ChildDied(Exception):
+    """The forked child running one simulated execution hung (watchdog) or crashed."""
+
+
+def run_isolated(fn, timeout=120):
+    """Run fn() in a forked child and return its picklable result.
+
+    Every simulated run starts from the same process image (the state right after the imports):
+    process-global state in the code under test - caches, memo tables, class attributes - cannot
+    leak from one run into the next, so a run is a pure function of its plan, replays are exact
+    and a hung run kills only its own child."""
+    r, w = os.pipe()
+    pid = os.fork()
+    if pid == 0:
+        code = 0
+        try:
+            os.close(r)
+            faulthandler.dump_traceback_later(timeout, exit=True)
+            try:
+                out = ("ok", fn())
+            except BaseException:  # noqa: BLE001
+                out = ("err", traceback.format_exc())
+            data = pickle.dumps(out)
+            with os.fdopen(w, "wb") as f:
+                f.write(data)
+        except BaseException:  # noqa: BLE001
+            code = 3
+        finally:
+            os._exit(code)
+    os.close(w)
+    with os.fdopen(r, "rb") as f:
+        data = f.read()
+    os.waitpid(pid, 0)
+    if not data:
+        raise ChildDied(f"isolated run died without a result (hang > {timeout}s or crash)")
+    kind, val = pickle.loads(data)
+    if kind == "err":
+        raise ChildDied("isolated run raised:\n" + val)
+    return val
+
+
+def execute_isolated(world, plan, known_keys=(), keep_events=False, timeout=120):
+    """execute() in a forked child; returns an object with the same fields as Result."""
+    try:
+        d = run_isolated(lambda: execute(world, plan, known_keys, keep_events).to_dict(), timeout)
+    except ChildDied as e:
+        d = {k: None for k in Result.__slots__}
+        d.update(violation=None, digest=None, signature="", nontrivial=False, probes={}, faults={}, known_hits={},
+                 n_steps=len(plan["steps"]), events=[], real_calls={}, harness_error=str(e))
+    return SimpleNamespace(**d)
